@@ -197,9 +197,19 @@ class Lib:
         if "tick" in self.defs:
             body += ["(define ctr (list 'v14ctr '%s 0))" % t,
                      "(define (tick) (set! tick-n (+ tick-n 1)) (set! ctr (list 'v14ctr '%s tick-n)) (list 'v14tick '%s tick-n))" % (t, t)]
+        # (round 5) the syntax-rules macros m1 / lit / mlit are reached through an er-macro-transformer of the same name that hands the
+        # operands to the PRIVATE syntax-rules macro <name>-sr (literal matching is still syntax-rules' own, in the library's environment)
+        # and turns a use as a bare IDENTIFIER into (<name>-sr): like the wrappers, every generated macro then answers its tagged value
+        # instead of raising inside its transformer when a probe reaches it in identifier form (e.g. the declared free name x of wifx,
+        # looked up in a macro library that imported (rename mlit x): thorough tier g287) -- F-C06-1 would corrupt the process
+        bare_safe = ("(define-syntax %s (er-macro-transformer (lambda (form rename compare) "
+                     "(cons (rename '%s) (if (pair? form) (cdr form) '())))))")
         if "m1" in self.defs:
-            body.append("(define-syntax m1 (syntax-rules () ((_) (list 'v14mac '%s 'm1 h1))))" % t)
-        ok = "(and (pair? (cdr form)) (pair? (cddr form)))"
+            body.append("(define-syntax m1-sr (syntax-rules () ((_) (list 'v14mac '%s 'm1 h1))))" % t)
+            body.append(bare_safe % ("m1", "m1-sr"))
+        # (round 5: (pair? form) first -- a wrapper reached in IDENTIFIER form, e.g. the declared free name x of wifx looked up in a macro
+        # library where x is (rename wifx x), must answer its tagged value too instead of raising (cdr 'x) inside the transformer: F-C06-1)
+        ok = "(and (pair? form) (pair? (cdr form)) (pair? (cddr form)))"
         for w in ("wif", "wifx"):
             if w in self.defs:
                 body.append("(define-syntax %s (sc-macro-transformer (lambda (form env) (if %s "
@@ -215,18 +225,20 @@ class Lib:
         # e.g. (rename (v14 g l1) (otherwise x)) with l1 exporting (rename ... otherwise) -- and a pattern (_ x) is then (_ <ellipsis>):
         # "bad ellipsis", the library legitimately fails to load (seen in the thorough tier: g78 l3, g184 l2)
         if "lit" in self.defs:
-            body.append("(define-syntax lit (syntax-rules () ((_ . c14-rest) '(v14mac %s lit))))" % t)
+            body.append("(define-syntax lit-sr (syntax-rules () ((_ . c14-rest) '(v14mac %s lit))))" % t)
+            body.append(bare_safe % ("lit", "lit-sr"))
         if "mlit" in self.defs:
-            body.append("(define-syntax mlit (syntax-rules (lit else => ulit) ((_ lit) '(v14lit %s lit)) ((_ else) '(v14lit %s else)) ((_ =>) '(v14lit %s =>)) "
+            body.append(bare_safe % ("mlit", "mlit-sr"))
+            body.append("(define-syntax mlit-sr (syntax-rules (lit else => ulit) ((_ lit) '(v14lit %s lit)) ((_ else) '(v14lit %s else)) ((_ =>) '(v14lit %s =>)) "
                         "((_ ulit) '(v14lit %s ulit)) ((_ c14-pv) '(v14lit %s no)) ((_ . c14-rest) '(v14mac %s mlit))))" % (t, t, t, t, t, t))
         if "elit" in self.defs:
-            body.append("(define-syntax elit (er-macro-transformer (lambda (form rename compare) (if (and (pair? (cdr form)) (null? (cddr form))) "
+            body.append("(define-syntax elit (er-macro-transformer (lambda (form rename compare) (if (and (pair? form) (pair? (cdr form)) (null? (cddr form))) "
                         "(list (rename 'quote) (list 'v14lit '%s (cond ((compare (cadr form) (rename 'lit)) 'lit) ((compare (cadr form) (rename 'else)) 'else) "
                         "((compare (cadr form) (rename '=>)) '=>) ((compare (cadr form) (rename 'ulit)) 'ulit) (else 'no)))) (list (rename 'quote) '(v14mac %s elit))))))" % (t, t))
         for d in self.defs:
             if d not in ("tick", "ctr") and d not in MACRO_DEFS and d != ce_def and d not in self.inc:
                 body.append("(define %s (list 'v14val '%s '%s))" % (d, t, d))
-        chibi = " (only (chibi) sc-macro-transformer er-macro-transformer make-syntactic-closure)" if any(w in self.defs for w in WRAPPERS + ["elit"]) else ""
+        chibi = " (only (chibi) sc-macro-transformer er-macro-transformer make-syntactic-closure)" if any(w in self.defs for w in WRAPPERS + ["elit", "m1", "lit", "mlit"]) else ""
         extra = ""
         if self.inc:
             extra += "\n  (include \"%s-inc.scm\")" % self.name[-1]
@@ -392,7 +404,7 @@ def gen_closed_case(rng, libs, world):
         for n, m in (py_denote(world, i) or []):
             o = py_origin(libs, world, iset_lib(i), m)
             # (a macro whose visible name is itself a declared free name -- x, it -- would be looked up in the macro's context)
-            if o and o[1] in WRAPPERS and n not in macs and n not in ("x", "it"):
+            if o and o[1] in WRAPPERS and n not in macs and n not in ("x", "it") and py_all_defs(libs, world, isets, n) <= set(WRAPPERS):
                 macs.append(n)
     if not macs:
         return None
@@ -465,6 +477,22 @@ def gen_lit_case(rng, libs, world):
     return dict(kind="lit", isets=isets, **lit_plan(rng, libs, world, isets))
 
 
+def py_all_defs(libs, world, isets, n):
+    """(round 5) the definition names behind EVERY binding the program's import sets give the visible name n (a name imported twice is 'an
+    error' in R7RS; chibi lets the later import win): a probe that CALLS n as a macro of some kind is generated only when every binding is
+    a macro of that kind -- otherwise the call may reach another macro whose transformer raises (m1 has the single pattern (_)), F-C06-1"""
+    out = set()
+    for i in isets:
+        for a, m in (py_denote(world, i) or []):
+            if a == n:
+                os_ = py_origins(libs, world, iset_lib(i), m)
+                if not os_:
+                    out.add("?")
+                for o in os_:
+                    out.add("kw:" + o[1] if tuple(o[0]) == SB else o[1])
+    return out
+
+
 def py_class(libs, world, isets, n):
     """generator-side guess of what a visible name is: a keyword, 'var', 'macro', 'U' or 'A' (bound by two import sets: not probed where
     the probe would evaluate it).  Only decides WHICH probes are run for the name; verdicts come from the SPEC origin."""
@@ -489,7 +517,8 @@ def lit_plan(rng, libs, world, isets, limit=30):
     for i in isets:
         for n, m in (py_denote(world, i) or []):
             o = py_origin(libs, world, iset_lib(i), m)
-            if o and o[1] in ("mlit", "elit") and n not in mls and py_class(libs, world, isets, n) == "macro":
+            if o and o[1] in ("mlit", "elit") and n not in mls and py_class(libs, world, isets, n) == "macro" \
+                    and py_all_defs(libs, world, isets, n) <= {"mlit", "elit"}:
                 mls.append(n)
     plan = []
     for n in names:
